@@ -300,3 +300,33 @@ func c01Gen(r *rng, n int, w *bufio.Writer) {
 		}
 	}
 }
+
+// op `c01.hash`: filterutil.FastHash / FastHashBetween vs the model (the lookup
+// answers do not depend on the hash values, so the hash model needs its own tie).
+//   c01.hash x<s> i j = <FastHash(s)>:<FastHashBetween(s,i,j) | PANIC>
+func init() { gens["c01.hash"] = c01HashGen }
+
+func c01HashGen(r *rng, n int, w *bufio.Writer) {
+	for k := 0; k < n; k++ {
+		var s string
+		switch r.n(4) {
+		case 0:
+			s = pick(r, []string{"", "a", "ab", "/banner", "example.org", "\x00\xff\x80"})
+		case 1:
+			b := make([]byte, r.n(40))
+			for i := range b {
+				b[i] = byte(r.n(256))
+			}
+			s = string(b)
+		default:
+			s = genURL(r, nil)
+		}
+		i, j := r.n(len(s)+2), r.n(len(s)+3)
+		if r.chance(2, 3) && len(s) >= lookup.VerifShortcutLength {
+			i = r.n(len(s) - lookup.VerifShortcutLength + 1)
+			j = i + lookup.VerifShortcutLength
+		}
+		hb := guardStr(func() string { return fmt.Sprint(filterutil.FastHashBetween(s, i, j)) })
+		fmt.Fprintf(w, "c01.hash %s %d %d = %d:%s ## %q[%d:%d]\n", wb(s), i, j, filterutil.FastHash(s), hb, s, i, j)
+	}
+}
